@@ -39,8 +39,6 @@ var (
 	postCalls      int
 )
 
-
-
 func stubB64Decode(enc *base64.Encoding, s string) ([]byte, error) {
 	stubDecodeArg = s
 	if stubFixedFP {
@@ -78,7 +76,7 @@ type nullSessionCache struct{}
 
 func (nullSessionCache) Get(k string) (*tls.ClientSessionState, bool) { return nil, false }
 func (nullSessionCache) Put(k string, s *tls.ClientSessionState)      {}
-func stubSessionCache(n int) tls.ClientSessionCache                  { return nullSessionCache{} }
+func stubSessionCache(n int) tls.ClientSessionCache                   { return nullSessionCache{} }
 
 func stubTransportClone(t *http.Transport) *http.Transport { return &http.Transport{} }
 
@@ -150,10 +148,10 @@ func HarnessC13Verifier() {
 
 type nullShell struct{}
 
-func (nullShell) SetInput(in io.Reader)          {}
-func (nullShell) Output() io.ReadCloser          { return io.NopCloser(nullReader{}) }
-func (nullShell) Go(ctx context.Context) error   { return nil }
-func (nullShell) String() string                 { return "nullshell" }
+func (nullShell) SetInput(in io.Reader)        {}
+func (nullShell) Output() io.ReadCloser        { return io.NopCloser(nullReader{}) }
+func (nullShell) Go(ctx context.Context) error { return nil }
+func (nullShell) String() string               { return "nullshell" }
 
 type nullReader struct{}
 
